@@ -156,8 +156,10 @@ def row(case, ctx):
                               observed=r, expected=base, extra={"A": A, "B": B, "forms": [fa, fb]})
         # further accepted containers, on a rotating partner form
         if base is not None:
-            for k, fa in enumerate(EXTRA_FORMS):
-                fb = (EXTRA_FORMS + FORMS)[(k + jb) % (len(EXTRA_FORMS) + len(FORMS))]
+            nx = len(EXTRA_FORMS)
+            for k in range(4):   # 4 of the extra forms per pair, rotating: every graph meets every form
+                fa = EXTRA_FORMS[(4 * (case["i"] + jb) + k) % nx]
+                fb = (EXTRA_FORMS + FORMS)[(k + 3 * jb + case["i"]) % (nx + len(FORMS))]
                 ctx.state((A, B, fa, fb))
                 res, nw, _ = gh_call(ctx, to_form(A, fa), to_form(B, fb))
                 r = bracket(ctx, A, B, res, nw, [fa, fb])
